@@ -32,6 +32,11 @@ pub fn pool() -> Vec<(&'static str, &'static str)> {
         ("optimal-pair", "contract P# { uint256 total# ; uint96 fee# ; }"),
         ("packable-contract", "contract Q# { uint128 a# ; uint256 b# ; uint128 c# ; }"),
         ("require-token", "contract R# { function pay# ( address t , uint256 v ) external { require ( v >= 1 , \"low\" ) ; I0 ( t ) . transfer ( msg . sender , v ) ; } }"),
+        ("auth-checked", "contract G# { address o# ; modifier auth ( ) { require ( msg . sender == o# ) ; _ ; } function stop# ( ) external auth { selfdestruct ( payable ( o# ) ) ; } }"),
+        ("auth-unchecked", "contract H# { modifier auth ( ) { _ ; } function stop# ( ) external auth { selfdestruct ( payable ( address ( 0 ) ) ) ; } }"),
+        ("wrapped-division", "contract W# { function w# ( uint256 a , uint256 b , uint256 c ) external returns ( uint256 ) { return a / b * c ; } function v# ( ) external { } constructor ( ) { } }"),
+        ("same-struct-name", "contract Y# { struct Config { bool a ; uint256 b ; bool c ; } }"),
+        ("interface-struct", "interface Z# { struct Params { uint128 a ; uint256 b ; uint128 c ; } function q# ( ) external ; }"),
         ("abstract", "abstract contract X# { uint256 internal x# ; function _h# ( ) public virtual ; modifier only# ( ) { _ ; } }"),
     ]
 }
